@@ -54,8 +54,9 @@ def _wild(draw, shard, nshards):
     edits = []
     for _ in range(draw(st.integers(1, 3))):
         kind = draw(st.sampled_from(["onset", "value", "pitch", "ts", "drop-track", "velocity-edge"]))
-        edits.append([kind, draw(st.integers(0, 10 ** 6)), draw(st.integers(-3, 40)), draw(st.integers(1, 33)),
-                      draw(st.sampled_from([1, 2, 4, 8, 16, 32]))])
+        sig = draw(st.one_of(st.tuples(st.integers(1, 33), st.sampled_from([1, 2, 4, 8, 16, 32])),
+                             st.sampled_from([(8, 8), (4, 4), (16, 16), (2, 2), (16, 8), (17, 8), (1, 8), (2, 8)])))
+        edits.append([kind, draw(st.integers(0, 10 ** 6)), draw(st.integers(-3, 40)), sig[0], sig[1]])
     return {"kind": "wild", "cfg": cfg, "piece": piece, "edits": edits}
 
 
